@@ -9,6 +9,8 @@ import traceback
 
 NPROC = int(os.environ.get("VERIF_NPROC", "0") or 0) or min(16, os.cpu_count() or 4)
 
+WATCHDOG_S = int(os.environ.get("VERIF_WATCHDOG_S", "1500") or 1500)
+
 _FN = None
 
 
@@ -17,6 +19,10 @@ def _call(args):
         return ("ok", _FN(args))
     except BaseException as e:  # noqa
         return ("err", f"{type(e).__name__}: {e}\n{traceback.format_exc()}", repr(args)[:2000])
+
+
+def _call_many(chunk):
+    return [_call(a) for a in chunk]
 
 
 def pmap(fn, tasks, nproc=None, chunksize=1, deadline=None):
@@ -39,12 +45,23 @@ def pmap(fn, tasks, nproc=None, chunksize=1, deadline=None):
         return
     ctx = mp.get_context("fork")
     with ctx.Pool(nproc) as pool:
-        it = pool.imap_unordered(_call, tasks, chunksize)
-        for r in it:
-            if r[0] == "err":
+        chunksize = max(1, int(chunksize))
+        chunks = [tasks[i:i + chunksize] for i in range(0, len(tasks), chunksize)]
+        it = pool.imap_unordered(_call_many, chunks, 1)
+        while True:
+            try:
+                # a worker that died (or never answers) must not hang the check for ever
+                rs = it.next(timeout=WATCHDOG_S)
+            except StopIteration:
+                break
+            except mp.TimeoutError:
                 pool.terminate()
-                raise RuntimeError("HARNESS-ERROR in worker:\n" + r[1] + "\ntask=" + r[2])
-            yield r[1]
+                raise RuntimeError(f"HARNESS-ERROR: no worker result within {WATCHDOG_S} s (a worker died or hangs)")
+            for r in rs:
+                if r[0] == "err":
+                    pool.terminate()
+                    raise RuntimeError("HARNESS-ERROR in worker:\n" + r[1] + "\ntask=" + r[2])
+                yield r[1]
             if deadline and time.time() > deadline:
                 pool.terminate()
                 return
